@@ -89,6 +89,55 @@ example : marginFrames { exOpts with timeDiv := 3, timeMargin := 1/2 } = 1 ∧
     Rat.ceil (trailMargin { exOpts with timeDiv := 3, timeMargin := 1/2 }) = 2 ∧
     marginFrames { exOpts with timeDiv := 3, timeMargin := -1/2 } = -1 := by decide +kernel
 
+/-- **negative onsets, margins**: with a non-negative `time_div` no note starts before the leading margin, and
+    the earliest note starts exactly at it whenever silence is removed or some onset is not positive (a
+    negative first onset becomes frame 0 of the roll, shifted by the margin) -/
+theorem first_frame (o : Opts) (notes : List Note) (h : notes ≠ []) (htd : 0 ≤ o.timeDiv) :
+    (∀ n ∈ notes, marginFrames o ≤ onFrame o (t0Of o notes) n) ∧
+    ((o.removeSilence = true ∨ ∃ n ∈ notes, n.onset ≤ 0) →
+      ∃ n ∈ notes, onFrame o (t0Of o notes) n = marginFrames o) := by
+  obtain ⟨m, ⟨n0, hn0, hm0⟩, hmin, ht0⟩ := t0_spec o notes h
+  have htdq : (0 : Rat) ≤ (o.timeDiv : Rat) := by exact_mod_cast htd
+  have hle : ∀ n ∈ notes, t0Of o notes ≤ n.onset := by
+    intro n hn
+    have := hmin n hn
+    rw [ht0]
+    split
+    · exact this
+    · split
+      · rename_i h0; linarith
+      · exact this
+  have hr0 : roundHalfEven (0 : Rat) = 0 := by
+    have := Round.roundHalfEven_int 0
+    simpa using this
+  constructor
+  · intro n hn
+    unfold onFrame
+    have h1 : (0 : Rat) ≤ (o.timeDiv : Rat) * (n.onset - t0Of o notes) :=
+      mul_nonneg htdq (by linarith [hle n hn])
+    have := Round.roundHalfEven_mono h1
+    rw [hr0] at this
+    omega
+  · intro hc
+    have hzero : t0Of o notes = m := by
+      rw [ht0]
+      rcases hc with hc | ⟨n, hn, hneg⟩
+      · rw [if_pos hc]
+      · split
+        · rfl
+        · have := hmin n hn
+          split
+          · rename_i h0; linarith
+          · rfl
+    refine ⟨n0, hn0, ?_⟩
+    unfold onFrame
+    rw [hzero, hm0, sub_self, mul_zero, hr0, zero_add]
+
+example : onFrame { exOpts with timeMargin := 1 } (t0Of { exOpts with timeMargin := 1 } [⟨60, -3/2, 1, 10⟩, ⟨62, 1/2, 1, 20⟩])
+    ⟨60, -3/2, 1, 10⟩ = 2 ∧
+    (makePianoroll { exOpts with timeMargin := 1 } [⟨60, -3/2, 1, 10⟩, ⟨62, 1/2, 1, 20⟩]).map (fun r => (r.cols, r.cell 60 2, r.cell 62 6))
+      = some (10, 10, 20) := by decide +kernel
+
 /-- every note occupies at least one frame, in every mode; note separation removes exactly the last frame of a
     note that has more than one; onset mode keeps exactly the onset frame -/
 theorem min_one_frame (o : Opts) (t0 : Rat) (n : Note) :
